@@ -36,7 +36,7 @@ From SharkV Require Import ListAux C13Model C13Wfg.
 Import ListNotations.
 Local Open Scope Z_scope.
 
-Definition hpt := (list Z * Z)%type.
+Notation hpt := (list Z * Z)%type (only parsing).
 
 Fixpoint all2 (r : Z -> Z -> bool) (a b : list Z) : bool :=
   match a, b with
